@@ -26,7 +26,9 @@ enum {
   MPIR_VERIF_SB_DIV_N1_EQ_D1 = 30, MPIR_VERIF_SB_DIV_ADDBACK, MPIR_VERIF_3BY2_SECOND_ADJUST, MPIR_VERIF_TDIV_QR_QUOTIENT_TOO_LARGE,
   MPIR_VERIF_INV_DIVAPPR_MULTIPLY_OUT,
   MPIR_VERIF_MT_REFILL = 40,
-  MPIR_VERIF_PT_TMP_REENTRANT_ALLOC = 50, MPIR_VERIF_PT_MPZ_REALLOC
+  MPIR_VERIF_PT_TMP_REENTRANT_ALLOC = 50, MPIR_VERIF_PT_MPZ_REALLOC,
+  MPIR_VERIF_HGCD_REDUCE_APPLY = 60, MPIR_VERIF_HGCD_REDUCE_FOLD, MPIR_VERIF_HGCD_REDUCE_FOLD_CARRY_A, MPIR_VERIF_HGCD_REDUCE_FOLD_CARRY_B,
+  MPIR_VERIF_HGCD_APPR = 64, MPIR_VERIF_GCD_HGCD_STEP, MPIR_VERIF_GCDEXT_HGCD_STEP, MPIR_VERIF_GCD_SUBDIV_STEP
 };
 
 #endif
